@@ -28,6 +28,9 @@ pub fn check(tier: Tier) -> Check {
             (Tier::Thorough, _) => 4,
         };
         parts.push(Part::new("C13/causes", json!({"depth": d}), k, tier.pick(40, 600)));
+        if k == 0 {
+            parts.push(Part::new("C13/causes", json!({"depth": d - 1, "flavour": 1}), 0, tier.pick(40, 600)));
+        }
     }
     Check {
         also_rel: false,
@@ -277,9 +280,10 @@ pub fn scenario(name: &str, params: &Value) -> Scenario {
         let mut sys = Sys::new("C13", &name, chz);
         sys.params = params.clone();
         sys.m.check_client_acks = true;
-        sys.bring_up(vec![]);
+        sys.bring_up_fl(vec![], params["flavour"].as_u64().unwrap_or(0));
         let specs = std_ops();
-        let devs = |s: &Sys| sched_deviations(s, false, true);
+        // a held context task lets requests queue up before a cause strikes
+        let devs = |s: &Sys| sched_deviations(s, true, true);
         let evs = |s: &Sys| {
             let mut e = vec![];
             if s.m.ctx == CtxSt::Running {
@@ -329,6 +333,19 @@ pub fn scenario(name: &str, params: &Value) -> Scenario {
                 }
                 if s.m.master_alive {
                     e.push(Ev::DropMaster);
+                }
+                // an abandoned operation (its handle clone goes with it)
+                for i in 0..s.m.ops.len() {
+                    let q2 = matches!(&s.m.ops[i].spec, OpSpec::Publish(p) if p.qos() == 2);
+                    // (a QoS 2 publish abandoned before its PUBREC is the recorded finding of C15)
+                    if s.m.ops[i].alive && s.m.ops[i].st != St::Done && !q2 {
+                        e.push(Ev::Cancel(i));
+                    }
+                }
+                // nothing can arrive after the transport has ended (the context may be held and
+                // not have noticed yet)
+                if s.m.eof || s.m.read_err {
+                    e.retain(|x| !matches!(x, Ev::Deliver(_) | Ev::PartialThenEof(..) | Ev::Eof | Ev::ReadErr));
                 }
                 e.push(Ev::Deliver(SPacket::Raw(vec![0x40, 0x02, 0x00, 0x00])));
                 e.push(Ev::Deliver(SPacket::Raw(vec![0x00, 0x00])));
